@@ -6,7 +6,10 @@ directories whose symbol names / exename / cmdline favour quotes, backslashes, c
 bytes >= 0x80 and long names) and H4 (print_json_escaped_char / json_quote called directly,
 exhaustive over the 256 byte values).  Model and implementation are compared byte for byte;
 the monitors evaluate the property on the implementation's output with Python's json module
-(strict) and an independent path aggregation."""
+(strict) and an independent path aggregation.  Chrome runs also carry argument / return value
+payloads (get_argspec_string -> spec_buf[2048]): hostile bytes in strings and chars, the NULL
+marker, std::string, pointers that resolve to symbols with hostile names, the printf formats, and
+value lists whose text is around / beyond the 2048 bytes of the buffer."""
 import concurrent.futures
 import json
 import os
@@ -38,12 +41,23 @@ def s2(b):
 # ---------------------------------------------------------------------------
 # data directory (extends lib/datadir.py: hostile exename in task.txt, info mask)
 class Dir(DD.DataDir):
-    def __init__(self, *a, record_date=True, **kw):
+    def __init__(self, *a, record_date=True, argspec="", retspec="", **kw):
         super().__init__(*a, **kw)
         self.record_date = record_date
+        self.argspec, self.retspec = argspec, retspec
 
     def info_bytes(self):
         b = super().info_bytes()
+        if self.argspec or self.retspec:
+            # ARGUMENT|RETVAL features, ARG_SPEC info bit; the section stands between loadinfo and record_date
+            hb = bytearray(b[:40])
+            feat, mask = struct.unpack_from("<QQ", hb, 16)
+            struct.pack_into("<QQ", hb, 16, feat | 8 | 16, mask | (1 << 10))
+            lines = (["argspec:" + self.argspec] if self.argspec else []) + (["retspec:" + self.retspec] if self.retspec else [])
+            spec = ("argspec:lines=%d\n%s\n" % (len(lines), "\n".join(lines))).encode()
+            body = b[40:]
+            assert b"record_date:" in body
+            b = bytes(hb) + body.replace(b"record_date:", spec + b"record_date:", 1)
         if self.record_date:
             return b
         hdr, body = b[:40], b[40:]
@@ -182,6 +196,228 @@ def json_quote_ref(b):
     return b.replace(b'"', b'\\"')
 
 
+# ---------------------------------------------------------------------------
+# argument / return value payloads.  A function with arguments has a plain name ("argf<k>": the
+# argspec of the info file selects functions by name pattern) and a fixed spec list.
+#   spec  = {"k": kind[, "fmt", "size", "name"]}     kinds: s S c p n f e t
+#   value = ["s"|"S", hex] | ["c", byte] | ["p", address] | ["n", unsigned] | ["f", u64 bits of the double]
+#           | ["e", unsigned] | ["t", hex]
+NULL_STR = b"\xff\xff\xff\xff"
+
+
+def pad4(b):
+    return b + b"\0" * ((-len(b)) % 4)
+
+
+def cstr(b):
+    i = b.find(b"\0")
+    return b if i < 0 else b[:i]
+
+
+def spec_text(sp):
+    k = sp["k"]
+    if k in "sScp":
+        return "/" + k
+    if k == "n":
+        return "/%s%d" % (sp["fmt"], 8 * sp["size"])
+    if k == "f":
+        return "/f64"
+    if k == "e":
+        return "/e:color"
+    return "/t%d%s" % (sp["size"], (":" + sp["name"]) if sp.get("name") else "")
+
+
+def value_payload(sp, v):
+    k = sp["k"]
+    if k in "sS":
+        b = bytes.fromhex(v[1])
+        return pad4(struct.pack("<H", len(b)) + b)
+    if k == "c":
+        return pad4(bytes([v[1]]))
+    if k in "pfe":
+        return struct.pack("<Q", v[1])
+    if k == "n":
+        return pad4(v[1].to_bytes(sp["size"], "little"))
+    return pad4(bytes.fromhex(v[1]))
+
+
+def _sx(v, bits):
+    v &= (1 << bits) - 1
+    return v - (1 << bits) if v >> (bits - 1) else v
+
+
+def int_text(fmt, size, u):
+    """the text of the integer formats (get_argspec_string builds "%#<hh|h||ll><d|i|u|x|o>"); u = the value's
+    `size` bytes as an unsigned number"""
+    bits = 8 * size
+    u &= (1 << bits) - 1
+    val_i = _sx(u, 64) if size == 8 else u          # memcpy into the zeroed union, read as long
+    f = fmt
+    if fmt == "d":                                   # ARG_FMT_AUTO
+        if val_i > 100000 or val_i < -100000:
+            f = "x"
+            v64 = val_i & (2 ** 64 - 1)
+            if 0xffff0000 < v64 <= 0xffffffff:
+                return "%d" % _sx(v64, 32)           # small negative 32-bit number: "%#d" of the low word
+    elif fmt == "u":
+        if (val_i & (2 ** 64 - 1)) > 100000:
+            f = "x"
+    if f in "di":
+        return "%d" % _sx(u, bits)
+    if f == "u":
+        return "%d" % u
+    if f == "x":
+        return "0" if u == 0 else "0x%x" % u
+    return "0" if u == 0 else "0%o" % u
+
+
+def raw_text(sp, v):
+    """what printf produces for the formats the Lean model takes as given text (`ArgVal.raw`)"""
+    k = sp["k"]
+    if k == "n":
+        return int_text(sp["fmt"], sp["size"], v[1]).encode()
+    if k == "f":
+        return ("%#f" % struct.unpack("<d", struct.pack("<Q", v[1]))[0]).encode()
+    if k == "e":
+        return b"%d" % _sx(v[1], 64)                    # get_enum_string() for a type without definition: "%ld"
+    if k == "t":
+        nm = sp.get("name") or ""
+        return (nm if nm != "<lambda" else "").encode() + (b"{...}" if sp["size"] else b"{}")
+    raise ValueError(k)
+
+
+def sym_at(names, addr):
+    """index of the symbol an address lies in (symbol i: [BASE + 0x100*(i+1), +0x80)), or None"""
+    rel = addr - DD.BASE
+    if rel < 0x100:
+        return None
+    i, off = rel // 0x100 - 1, rel % 0x100
+    return i if (i < len(names) and off < 0x80) else None
+
+
+def value_pieces(names, sp, v):
+    """the pieces print_args / print_char are called with for one value: [(bytes in the JSON text, decoded text)]
+    -- an independent statement of what should be shown (the monitor's right-hand side)"""
+    k = sp["k"]
+
+    def esc(bs):
+        return [(esc_ref(bytes([c])), shown_ref(bytes([c]))) for c in bs]
+    if k in "sS":
+        b = bytes.fromhex(v[1])
+        if b == NULL_STR:
+            out = [(b"NULL", "NULL")]
+        else:
+            out = [(b'\\"', '"')] + esc(cstr(b)) + [(b'\\"', '"')]
+        return out + ([(b"s", "s")] if k == "S" else [])
+    if k == "c":
+        return [(b"'", "'")] + esc(bytes([v[1]])) + [(b"'", "'")]
+    if k == "p":
+        i = sym_at(names, v[1])
+        if i is not None:
+            return [(b"&", "&")] + esc(names[i])
+        t = b"0" if v[1] == 0 else b"0x%x" % v[1]
+        return [(t, t.decode())]
+    t = raw_text(sp, v)
+    return [(t, t.decode())]
+
+
+def value_token(names, sp, v):
+    """the value as the Lean driver reads it"""
+    k = sp["k"]
+    if k in "sS":
+        return k + v[1]
+    if k == "c":
+        return "c%02x" % v[1]
+    if k == "p":
+        i = sym_at(names, v[1])
+        if i is not None:
+            return "y" + names[i].hex()
+        return "r" + (b"0" if v[1] == 0 else b"0x%x" % v[1]).hex()
+    return "r" + raw_text(sp, v).hex()
+
+
+def list_pieces(names, specs, vals, is_ret):
+    """all pieces of the text of one event, in order"""
+    if is_ret:
+        return value_pieces(names, specs[0], vals[0]) if vals else []
+    out = [(b"(", "(")]
+    for i, (sp, v) in enumerate(zip(specs, vals)):
+        if i:
+            out.append((b", ", ", "))
+        out += value_pieces(names, sp, v)
+    return out + [(b")", ")")]
+
+
+STR_UNITS = [b"a", b"xy", b'"', b"\\", b"\n", b"\t", b"\x01", b"\x7f", b"\xc3\xa9", b"\xff", b"'", b" ", b"%s", b"%n", b"\\n",
+             b"\\\"", b"{", b"}", b",", b"\x1b[31m", b"\r", b"\x80"]
+
+
+def gen_str(rng, maxunits=8):
+    r = rng.random()
+    if r < 0.06:
+        return NULL_STR
+    if r < 0.12:
+        return b""
+    if r < 0.2:
+        return rng.choice(PLAIN)
+    b = b"".join(rng.choice(STR_UNITS) if rng.random() < 0.75 else bytes([rng.randrange(256)])
+                 for _ in range(rng.randint(1, maxunits)))
+    if rng.random() < 0.08:
+        b += b"\0tail"                                # get_argspec_string stops at the first NUL
+    if rng.random() < 0.05:
+        b = NULL_STR + b                              # starts like the NULL marker but is longer
+    return b
+
+
+def gen_spec(rng):
+    r = rng.random()
+    if r < 0.3:
+        return {"k": "s"}
+    if r < 0.38:
+        return {"k": "S"}
+    if r < 0.52:
+        return {"k": "c"}
+    if r < 0.7:
+        return {"k": "p"}
+    if r < 0.9:
+        return {"k": "n", "fmt": rng.choice("diuxo"), "size": rng.choice([1, 2, 4, 8])}
+    if r < 0.94:
+        return {"k": "f"}
+    if r < 0.97:
+        return {"k": "e"}
+    return {"k": "t", "size": rng.choice([4, 8, 16]), "name": rng.choice(["pair", "", "<lambda", "ns::vec3"])}
+
+
+def gen_value(rng, sp, nsym):
+    k = sp["k"]
+    if k in "sS":
+        return [k, gen_str(rng).hex()]
+    if k == "c":
+        return ["c", rng.choice([0, 9, 10, 34, 39, 92, 127, 128, 255, 65, 32]) if rng.random() < 0.6 else rng.randrange(256)]
+    if k == "p":
+        r = rng.random()
+        if r < 0.7:
+            return ["p", DD.BASE + 0x100 * (rng.randrange(nsym) + 1) + rng.choice([0, 0, 1, 0x7f])]
+        if r < 0.8:
+            return ["p", 0]
+        # (below the kernel base: find_symtabs() hands a kernel address to bsearch() with the NULL table of a
+        # data directory without kernel symbols, which UBSan reports; not this property's business)
+        return ["p", rng.choice([DD.BASE + 0x100 * (rng.randrange(nsym) + 1) + 0x80, DD.BASE + 0x10, 0x7f0012345678, 1,
+                                 rng.randrange(1 << 46)])]
+    if k == "n":
+        n = 8 * sp["size"]
+        return ["n", rng.choice([0, 1, 7, (1 << n) - 1, 1 << (n - 1), (1 << (n - 1)) - 1, 100000 % (1 << n), 100001 % (1 << n),
+                                 ((1 << n) - 100000) % (1 << n), ((1 << n) - 100001) % (1 << n), 0xffff0000 % (1 << n),
+                                 0xffff0001 % (1 << n), 0xffffffff % (1 << n), (1 << 32) % (1 << n), rng.randrange(1 << n),
+                                 rng.randrange(min(1 << n, 1000))])]
+    if k == "f":
+        x = rng.choice([0.0, -0.0, 1.5, -2.25, 1e-7, 123456.789, 1e22, -1e300, float("inf"), rng.uniform(-1000, 1000)])
+        return ["f", struct.unpack("<Q", struct.pack("<d", x))[0]]
+    if k == "e":
+        return ["e", rng.choice([0, 1, 2, 7, 1000, (1 << 64) - 1, rng.randrange(1 << 33)])]
+    return ["t", bytes(rng.randrange(256) for _ in range(sp["size"])).hex()]
+
+
 def gen_cmdline(rng, exe):
     r = rng.random()
     raw = b"uftrace record " + exe.rsplit(b"/", 1)[-1]
@@ -226,41 +462,72 @@ class Trace:
     """abstract description of one data directory"""
 
     def __init__(self, names, tasks, recs, exename=b"/synth/prog", cmdline=b"uftrace record ./prog",
-                 elapsed="0.001000000 sec", desc="", filtered=False):
+                 elapsed="0.001000000 sec", desc="", filtered=False, argfns=None):
         self.filtered = filtered      # run dump --chrome with -t 1s: every record is filtered out
         self.names = names            # symidx -> bytes (several symbols may share a name)
         self.tasks = tasks            # [(tid, pid)]
-        self.recs = recs              # merged, time ordered: (kind, tid, symidx, time)
+        self.recs = recs              # merged, time ordered: (kind, tid, symidx, time[, values or None])
         self.exename, self.cmdline, self.elapsed, self.desc = exename, cmdline, elapsed, desc
+        # symidx -> {"args": [spec…], "ret": spec | None}: functions whose records carry a payload
+        self.argfns = {int(k): v for k, v in (argfns or {}).items()}
 
     def to_json(self):
         return {"names": [n.hex() for n in self.names], "tasks": self.tasks, "recs": self.recs,
                 "exename": self.exename.hex(), "cmdline": self.cmdline.hex(), "elapsed": self.elapsed,
-                "desc": self.desc, "filtered": self.filtered}
+                "desc": self.desc, "filtered": self.filtered, "argfns": {str(k): v for k, v in self.argfns.items()}}
 
     @staticmethod
     def from_json(j):
         return Trace([bytes.fromhex(n) for n in j["names"]], [tuple(t) for t in j["tasks"]],
                      [tuple(r) for r in j["recs"]], bytes.fromhex(j["exename"]), bytes.fromhex(j["cmdline"]),
-                     j["elapsed"], j.get("desc", ""), j.get("filtered", False))
+                     j["elapsed"], j.get("desc", ""), j.get("filtered", False), j.get("argfns"))
+
+    def has_args(self):
+        return bool(self.argfns)
+
+    def vals_of(self, r):
+        return r[4] if len(r) > 4 else None
+
+    def specs_of(self, r):
+        """the specs the payload of record r is decoded with (ENTRY: arguments, EXIT: return value)"""
+        fn = self.argfns.get(r[2])
+        if not fn:
+            return []
+        return fn["args"] if r[0] == "E" else ([fn["ret"]] if fn.get("ret") else [])
+
+    def payload(self, r):
+        vals = self.vals_of(r)
+        if vals is None:
+            return b""
+        return b"".join(value_payload(sp, v) for sp, v in zip(self.specs_of(r), vals))
 
     def write(self, d, record_date=True):
         syms = [(0x100 * (i + 1), 0x80, s2(n)) for i, n in enumerate(self.names)]
         per = OrderedDict((tid, []) for tid, _ in self.tasks)
         depth = {tid: 0 for tid, _ in self.tasks}
-        for kind, tid, s, t in self.recs:
+        for r in self.recs:
+            kind, tid, s, t = r[:4]
             if kind == "E":
-                per[tid].append(DD.Rec(t, "E", depth[tid], DD.BASE + 0x100 * (s + 1)))
+                per[tid].append(DD.Rec(t, "E", depth[tid], DD.BASE + 0x100 * (s + 1), self.payload(r)))
                 depth[tid] += 1
             else:
                 depth[tid] -= 1
-                per[tid].append(DD.Rec(t, "X", depth[tid], DD.BASE + 0x100 * (s + 1)))
+                per[tid].append(DD.Rec(t, "X", depth[tid], DD.BASE + 0x100 * (s + 1), self.payload(r)))
         first = self.tasks[0][0]
         # other processes are forked children of the first one (FORK line), threads share its pid
         tasks = [DD.Task(tid, per[tid], pid=pid, ppid=(first if (pid == tid and tid != first) else None))
                  for tid, pid in self.tasks]
+        aspec, rspec = [], []
+        for k in sorted(self.argfns):
+            fn = self.argfns[k]
+            nm = self.names[k].decode()
+            if fn["args"]:
+                aspec.append(nm + "@" + ",".join("arg%d%s" % (i + 1, spec_text(sp)) for i, sp in enumerate(fn["args"])))
+            if fn.get("ret"):
+                rspec.append(nm + "@retval" + spec_text(fn["ret"]))
         dd = Dir(syms, tasks, cmdline=s2(self.cmdline), exename=s2(self.exename),
-                 extra_info={"elapsed_time": self.elapsed}, record_date=record_date)
+                 extra_info={"elapsed_time": self.elapsed}, record_date=record_date,
+                 argspec=";".join(aspec), retspec=";".join(rspec))
         shutil.rmtree(d, ignore_errors=True)
         os.makedirs(d)
         for n, b in dd.files().items():
@@ -271,11 +538,21 @@ class Trace:
     def visible(self):
         return [] if self.filtered else self.recs
 
-    def model_tail(self):
+    def model_tail(self, with_args=False):
         syms = " ".join(hx(n) for n in self.names)
         tasks = " ".join("%d:%d" % t for t in self.tasks)
-        recs = " ".join("%s:%d:%d:%d" % r for r in self.visible())
-        return "| %s | %s | %s" % (syms, tasks, recs)
+        if not with_args:
+            recs = " ".join("%s:%d:%d:%d" % tuple(r[:4]) for r in self.visible())
+            return "| %s | %s | %s" % (syms, tasks, recs)
+        toks, lists = [], []
+        for r in self.visible():
+            vals = self.vals_of(r)
+            if vals is None:
+                toks.append("%s:%d:%d:%d" % tuple(r[:4]))
+            else:
+                toks.append("%s:%d:%d:%d:%d" % (tuple(r[:4]) + (len(lists),)))
+                lists.append(",".join(value_token(self.names, sp, v) for sp, v in zip(self.specs_of(r), vals)) or "-")
+        return "| %s | %s | %s | %s" % (syms, tasks, " ".join(toks), " ".join(lists))
 
 
 def gen_trace(rng, names=None, ntasks=None, nrec=None, desc="random", ties=False):
@@ -318,6 +595,106 @@ def gen_trace(rng, names=None, ntasks=None, nrec=None, desc="random", ties=False
     return Trace(names, tasks, recs, exe, gen_cmdline(rng, exe), el, desc)
 
 
+
+def attach_values(rng, tr, p_none=0.1):
+    """give every record of a function with a spec its payload values"""
+    out = []
+    for r in tr.recs:
+        specs = tr.specs_of(r)
+        if specs and rng.random() >= p_none:
+            out.append(tuple(r[:4]) + ([gen_value(rng, sp, len(tr.names)) for sp in specs],))
+        else:
+            out.append(tuple(r[:4]))
+    tr.recs = out
+    return tr
+
+
+def gen_arg_trace(rng, desc="random+args", nrec=None):
+    """a random trace in which some functions (plain names argf<k>) carry arguments / return values; the other
+    symbols keep their hostile names and serve as targets of pointer arguments"""
+    nf = rng.randint(1, 4)
+    hostile = [gen_name(rng) for _ in range(rng.randint(2, 5))]
+    hostile = [n[:100] for n in hostile]               # a %s piece longer than ASan's red zone could jump over it
+    names = [b"main"] + [b"argf%d" % k for k in range(nf)] + hostile
+    argfns = {}
+    for k in range(nf):
+        args = [gen_spec(rng) for _ in range(rng.choice([0, 1, 1, 2, 3, 5, 8]))]
+        ret = gen_spec(rng) if rng.random() < 0.6 else None
+        if ret and ret["k"] == "t":
+            ret = {"k": "s"}
+        if not args and not ret:
+            args = [{"k": "s"}]
+        argfns[1 + k] = {"args": args, "ret": ret}
+    tr = gen_trace(rng, names=names, nrec=nrec, desc=desc)
+    tr.argfns = argfns
+    return attach_values(rng, tr)
+
+
+def one_call_trace(names, argfns, calls, desc):
+    """main { f(v…) = r; … } for calls = [(symidx, values | None, return values | None)]"""
+    t = 2000
+    recs = [("E", 100, 0, t)]
+    for s, vals, ret in calls:
+        t += 100
+        recs.append(("E", 100, s, t) + ((vals,) if vals is not None else ()))
+        t += 100
+        recs.append(("X", 100, s, t) + ((ret,) if ret is not None else ()))
+    recs.append(("X", 100, 0, t + 100))
+    return Trace(names, [(100, 100)], recs, desc=desc, argfns=argfns)
+
+
+TAILS = [b"", b'"', b"\\", b"\x01", b"\n", b"\xc3\xa9"]
+
+
+def boundary_arg_traces(lo, hi):
+    """value lists whose complete text has lo..hi bytes: one long string with each kind of final escape, the same
+    as std::string and as return value, and lists in which a number / char / symbol / ", " falls on the limit"""
+    names = [b"main", b"argf0", b"argf1", b"argf2", b"argf3", b'q"x\\y', b"plain_target"]
+    fns = {1: {"args": [{"k": "s"}], "ret": {"k": "s"}},
+           2: {"args": [{"k": "S"}], "ret": None},
+           3: {"args": [{"k": "s"}, {"k": "n", "fmt": "x", "size": 8}, {"k": "c"}, {"k": "p"}, {"k": "s"}], "ret": None},
+           4: {"args": [{"k": "s"}] * 12, "ret": None}}
+    sym_q = DD.BASE + 0x100 * 6
+    out = []
+    for tail in TAILS:
+        calls = []
+        for total in range(lo, hi + 1):
+            n = total - 6 - len(esc_ref(tail))                    # ( \" … \" )
+            calls.append((1, [["s", (b"a" * n + tail).hex()]], None))
+        out.append(one_call_trace(names, fns, calls, "args boundary %d..%d, one string ending in %r" % (lo, hi, tail)))
+    calls = []
+    for total in range(lo, hi + 1):
+        calls.append((2, [["S", (b"b" * (total - 7)).hex()]], None))                       # ( \" … \" s )
+        calls.append((1, None, [["s", (b"r" * (total - 4) + b"\x02").hex()]]))            # retval: \" … \"
+        calls.append((1, None, [["s", (b"r" * (total - 3)).hex()]]))
+    out.append(one_call_trace(names, fns, calls, "args boundary %d..%d, std::string and return values" % (lo, hi)))
+    calls = []
+    for total in range(lo - 40, hi + 1, 1):
+        # ("aaa…", 0xdeadbeefcafe, '\x00', &q"x\y, "zz")
+        rest = [["n", 0xdeadbeefcafe], ["c", 0], ["p", sym_q], ["s", b"zz".hex()]]
+        fixed = sum(len(e) for e, _ in list_pieces(names, fns[3]["args"], [["s", ""]] + rest, False))
+        if total - fixed >= 0:
+            calls.append((3, [["s", (b"a" * (total - fixed)).hex()]] + rest, None))
+    out.append(one_call_trace(names, fns, calls, "args boundary %d..%d, mixed list" % (lo - 40, hi)))
+    calls = []
+    for total in range(lo, hi + 1, 2):
+        # twelve strings of hostile bytes: 12 * (4 + 5k) + 11 * 2 + 2
+        k, extra = divmod(total - 12 * 4 - 24, 60)
+        vals = [["s", (b"\x80" * k + b"c" * (extra if i == 11 else 0)).hex()] for i in range(12)]
+        calls.append((4, vals, None))
+    out.append(one_call_trace(names, fns, calls, "args boundary %d..%d, twelve strings" % (lo, hi)))
+    return out
+
+
+def event_values(tr):
+    """per event of reference(tr): None, or (specs, values, is_ret)"""
+    out = []
+    for r in tr.visible():
+        vals = tr.vals_of(r)
+        out.append(None if vals is None else (tr.specs_of(r), vals, r[0] == "X"))
+    return out
+
+
 # ---------------------------------------------------------------------------
 # reference aggregation (independent of the Lean model): the property's right-hand side
 def reference(tr):
@@ -327,7 +704,7 @@ def reference(tr):
     last = {}
     calls = []          # dicts: path, t0, t1, kids(list of idx), tid
     events = []         # (ph, tid, name, time)
-    for kind, tid, s, t in tr.visible():
+    for kind, tid, s, t in (r[:4] for r in tr.visible()):
         last[tid] = t
         name = tr.names[s]
         if kind == "E":
@@ -381,6 +758,36 @@ def _strict_const(x):
     raise ValueError("non-standard JSON constant " + x)
 
 
+ARG_ROOM = 2040          # texts up to this many bytes must be shown completely (spec_buf has 2048)
+
+
+def mon_event_args(tr, g, ph, ev):
+    """the "args" member of one B/E event against the recorded values"""
+    if ev is None:
+        return None if "args" not in g else "event %r has arguments, the record has no payload" % (g,)
+    specs, vals, is_ret = ev
+    key = "retval" if is_ret else "arguments"
+    a = g.get("args")
+    if not isinstance(a, dict) or list(a.keys()) != [key] or not isinstance(a[key], str):
+        return "event %r: args is not {%r: string}" % (g.get("name"), key)
+    pieces = list_pieces(tr.names, specs, vals, is_ret)
+    full = "".join(t for _, t in pieces)
+    if sum(len(e) for e, _ in pieces) <= ARG_ROOM:
+        if a[key] != full:
+            return "%s %r of %r are not the recorded values %r" % (key, a[key][:120], g.get("name"), full[:120])
+        return None
+    # longer than the buffer: what is shown must start with the pieces that certainly fit
+    n, pre = 0, []
+    for e, t in pieces:
+        if n + len(e) > ARG_ROOM - 40:
+            break
+        n += len(e)
+        pre.append(t)
+    if not a[key].startswith("".join(pre)):
+        return "%s of %r (cut) do not start with the recorded values" % (key, g.get("name"))
+    return None
+
+
 def mon_chrome(tr, out_bytes):
     try:
         doc = json.loads(out_bytes.decode("utf-8"), parse_constant=_strict_const)
@@ -397,7 +804,11 @@ def mon_chrome(tr, out_bytes):
     if len(raw_ts) != len(events):
         return "ts fields are not <usec>.<3 digits>"
     stacks = {}
-    for g, (ph, tid, name, t), (us, ns) in zip(got, events, raw_ts):
+    evals = event_values(tr) + [None] * len(events)          # the closing events of open calls carry nothing
+    for g, (ph, tid, name, t), (us, ns), ev in zip(got, events, raw_ts, evals):
+        bad = mon_event_args(tr, g, ph, ev)
+        if bad:
+            return bad
         gt = g.get("tid", g.get("pid"))
         if g["ph"] != ph or gt != tid or g.get("pid") != pid_of[tid]:
             return "event %r does not match record %r" % (g, (ph, tid, t))
@@ -581,6 +992,15 @@ def run_uf(uftrace, cmd, d, args):
 
 
 MODES = ["chrome", "flame0", "flameS", "flameA", "graphviz", "mermaid", "graph"]
+# Json.Fix as main/abuf/asym digits: every combination of the repairs is a model the output is compared with
+COMBOS = ("111", "110", "101", "100", "011", "010", "001", "000")
+FINDING_THEOREMS = {
+    "F9": "c15_chrome_valid; c15_prefix_comm_quote_witness, c15_prefix_cmdline_backslash_witness",
+    "F9b": "c15_chrome_valid; c15_prefix_empty_trace_witness",
+    "S3": "c15_name_buf_safe; c15_prefix_name_buf_overflow_witness, c15_prefix_name_buf_cut_witness",
+    "C15-ARGBUF": "c15_args_buf_safe, c15_chrome_no_overflow; c15_prefix_argbuf_overflow_witness, c15_prefix_argbuf_char_witness",
+    "C15-ARGSYM": "c15_args_body_valid, c15_chrome_valid_with_args; c15_prefix_argsym_quote_witness",
+}
 
 
 def plan(tr, rng_st):
@@ -600,6 +1020,10 @@ def plan(tr, rng_st):
     ]
 
 
+def chrome_query(tr, fx, version, date):
+    return "chrome %s %s %s %s %s %s" % (fx, hx(tr.exename), hx(version), hx(date), hx(tr.cmdline), tr.model_tail(with_args=True))
+
+
 def classify_chrome(tr):
     """which known defect shapes does this input have (from the input alone)"""
     comm = tr.exename.rsplit(b"/", 1)[-1][:15]
@@ -617,7 +1041,7 @@ def classify_chrome(tr):
         i += 1
     if bad:
         shapes.add("F9")
-    used = {s for _, _, s, _ in tr.visible()}
+    used = {r[2] for r in tr.visible()}
     for s in used:
         n = tr.names[s]
         e = esc_ref(n)
@@ -753,6 +1177,30 @@ def corpus_traces():
     return out
 
 
+def corpus_arg_traces():
+    names = [b"main", b"argf0", b"argf1", b'q"x', b"b\\s", b"operator\"\" _km", b"caf\xc3\xa9"]
+    fns = {1: {"args": [{"k": "s"}, {"k": "c"}], "ret": {"k": "s"}},
+           2: {"args": [{"k": "p"}], "ret": {"k": "p"}}}
+    P = lambda i: ["p", DD.BASE + 0x100 * (i + 1)]             # noqa
+    out = [
+        one_call_trace(names, fns, [(1, [["s", b'hi "there"\n\x01'.hex()], ["c", 39]], [["s", b"ret\\".hex()]]),
+                                    (1, [["s", NULL_STR.hex()], ["c", 0]], [["s", ""]]),
+                                    (1, None, None),
+                                    (2, [P(0)], [["p", 0]]), (2, [["p", 0x7f0012345678]], [P(1)])],
+                       "corpus: strings, chars, NULL, pointers to plain symbols"),
+        # C15-ARGSYM: pointers to symbols whose names need escaping (the Lean witness: f(&q"x))
+        one_call_trace(names, fns, [(2, [P(3)], None)], "corpus: C15-ARGSYM pointer to q\"x"),
+        one_call_trace(names, fns, [(2, [P(4)], [P(5)]), (2, [P(6)], None)], "corpus: C15-ARGSYM backslash, operator\"\", utf-8"),
+        # C15-ARGBUF: the two Lean witnesses, utf-8 text that fits a real 1024-byte argument record, a return value
+        one_call_trace(names, fns, [(1, [["s", (b"\x01" * 410).hex()], ["c", 65]], None)], "corpus: C15-ARGBUF 410 escapes"),
+        one_call_trace(names, fns, [(1, [["s", (b"a" * 2046).hex()], ["c", 65]], None)], "corpus: C15-ARGBUF 2046 letters"),
+        one_call_trace(names, fns, [(1, [["s", ("\ud55c\uad6d\uc5b4 \ubb38\uc790\uc5f4 ".encode() * 40).hex()], ["c", 10]], None)],
+                       "corpus: C15-ARGBUF 680 bytes of utf-8 text"),
+        one_call_trace(names, fns, [(1, None, [["s", (b"\xff" * 420).hex()]])], "corpus: C15-ARGBUF return value"),
+    ]
+    return out
+
+
 def run_cases(ctx, only):
     """only = None: the whole check; else a Trace to replay"""
     ctx.snapshot()
@@ -855,6 +1303,13 @@ def run_cases(ctx, only):
             one = [(100, 100)]
             traces.append(Trace([b"main", n], one, [("E", 100, 0, 2000), ("E", 100, 1, 2100), ("X", 100, 1, 2200), ("X", 100, 0, 2300)],
                                 desc="name_buf overflow"))
+        # argument / return value payloads
+        traces += corpus_arg_traces()
+        traces += boundary_arg_traces(2030, 2047)             # fits, or is cut inside the buffer
+        traces += boundary_arg_traces(2048, 2062)             # does not fit
+        narg = 40 if ctx.tier == "quick" else 1500
+        for k in range(narg):
+            traces.append(gen_arg_trace(rng, nrec=(rng.choice([60, 150]) if (ctx.tier == "thorough" and k % 10 == 0) else None)))
         nrand = 80 if ctx.tier == "quick" else 5000
         for k in range(nrand):
             big = ctx.tier == "thorough" and k % 10 == 0
@@ -867,7 +1322,7 @@ def run_cases(ctx, only):
         rst = rng.choice([1, 7, 100, 333, 1000, 2500])
         pl = plan(tr, rst)
         plans.append(pl)
-        big = max([len(n) for n in tr.names] + [0]) > 1500 or tr.filtered
+        big = max([len(n) for n in tr.names] + [0]) > 1500 or tr.filtered or (tr.has_args() and i % 5 != 0)
         for suffix, rd in (("d", True), ("n", False)):
             tr.write(os.path.join(root, "t%d%s" % (i, suffix)), record_date=rd)
         for mode, suffix, rd, cmd, args, ml, extra in pl:
@@ -877,6 +1332,7 @@ def run_cases(ctx, only):
     with concurrent.futures.ThreadPoolExecutor(max_workers=min(12, os.cpu_count() or 4)) as ex:
         results = list(ex.map(lambda j: run_uf(uftrace, j[3], j[2], j[4]), jobs))
     res = {(j[0], j[1]): r for j, r in zip(jobs, results)}
+    t_runs = time.time()
 
     # model queries
     mlines, mkeys = [], []
@@ -886,9 +1342,9 @@ def run_cases(ctx, only):
             if (i, mode) not in res:
                 continue
             if mode == "chrome":
-                for fixed in (1, 0):
-                    mlines.append("chrome %d %s %s %s %s %s" % (fixed, hx(tr.exename), hx(version), hx(date), hx(tr.cmdline), tail))
-                    mkeys.append((i, mode, fixed))
+                for fx in (("111",) if tr.has_args() else ("111", "000")):
+                    mlines.append(chrome_query(tr, fx, version, date))
+                    mkeys.append((i, mode, fx))
             elif mode == "graphviz":
                 mlines.append("graphviz %s %s %s %s" % (hx(tr.exename), hx(version), hx(tr.cmdline), tail))
                 mkeys.append((i, mode, 1))
@@ -900,6 +1356,27 @@ def run_cases(ctx, only):
                 mlines.append(ml)
                 mkeys.append((i, mode, 1))
     mres = dict(zip(mkeys, C.run_model("C15", mlines)))
+    # second round: a run with argument payloads that is not what the repaired model says is compared with the
+    # model under the other combinations of the repairs: first those with the `main` repairs (in /repo), and only
+    # when none of them is what the implementation did, those without
+    def agrees(i, fx):
+        rc, out, errtxt = res[(i, "chrome")]
+        w = mres[(i, "chrome", fx)].split()
+        if len(w) != 2:
+            return False
+        san = "AddressSanitizer" in errtxt or "runtime error" in errtxt
+        if w[0] == "1":
+            return san and "stack-buffer-overflow" in errtxt and "dump_chrome_task_rstack" in errtxt
+        return rc == 0 and not san and out == (bytes.fromhex(w[1]) if w[1] != "-" else b"")
+    todo = [i for i, tr in enumerate(traces) if tr.has_args() and (i, "chrome") in res and not agrees(i, "111")]
+    for stage in (COMBOS[1:4], COMBOS[4:]):
+        mlines2 = [chrome_query(traces[i], fx, version, date) for i in todo for fx in stage]
+        if mlines2:
+            mres.update(zip([(i, "chrome", fx) for i in todo for fx in stage], C.run_model("C15", mlines2)))
+            mlines += mlines2
+        todo = [i for i in todo if not any(agrees(i, fx) and mres[(i, "chrome", fx)] != mres[(i, "chrome", "111")] for fx in stage)]
+    ctx.coverage["phase_seconds"] = {"tool_runs_done_at": round(t_runs - ctx.t0, 1), "model_done_at": round(time.time() - ctx.t0, 1),
+                                     "model_queries": len(mlines)}
     distinct = set()
 
     for i, tr in enumerate(traces):
@@ -912,48 +1389,78 @@ def run_cases(ctx, only):
             rep = {"trace": tr.to_json(), "mode": mode, "cmd": [cmd] + args, "rc": rc, "stderr": errtxt[:600]}
             san = "AddressSanitizer" in errtxt or "runtime error" in errtxt
             if mode == "chrome":
-                m1 = mres[(i, mode, 1)].split()
-                m0 = mres[(i, mode, 0)].split()
-                exp1 = bytes.fromhex(m1[1]) if m1[1] != "-" else b""
-                exp0 = bytes.fromhex(m0[1]) if m0[1] != "-" else b""
+                combos = tuple(fx for fx in COMBOS if (i, mode, fx) in mres)
+                mod = {}
+                for fx in combos:
+                    w = mres[(i, mode, fx)].split()
+                    mod[fx] = (w[0], bytes.fromhex(w[1]) if w[1] != "-" else b"") if len(w) == 2 else ("?", b"")
+                exp1 = mod["111"][1]
                 shapes = classify_chrome(tr)
-                distinct.add(("chrome", tuple(sorted(shapes)), len(tr.recs) > 0, len(tr.tasks), any(p != t for t, p in tr.tasks)))
+                kinds = tuple(sorted({sp["k"] for fn in tr.argfns.values() for sp in fn["args"] + ([fn["ret"]] if fn.get("ret") else [])}))
+                distinct.add(("chrome", tuple(sorted(shapes)), len(tr.recs) > 0, len(tr.tasks), any(p != t for t, p in tr.tasks), kinds,
+                              tuple(fx for fx in combos if mod[fx] != mod["111"])))
                 bad = None
                 if rc != 0 or san:
                     bad = "dump --chrome failed: rc=%d %s" % (rc, errtxt.strip().split("\n")[1][:160] if san and "\n" in errtxt.strip() else errtxt[:160])
                 else:
                     bad = mon_chrome(tr, out)
-                match1 = rc == 0 and not san and m1[0] == "0" and out == exp1
-                if m0[0] == "1":
-                    match0 = san and "stack-buffer-overflow" in errtxt and "dump_chrome_task_rstack" in errtxt
-                else:
-                    match0 = rc == 0 and not san and out == exp0
+
+                def matches(fx):
+                    oob, exp = mod[fx]
+                    if oob == "1":          # the model stores outside name_buf / spec_buf: undefined behaviour, ASan stops the run
+                        return san and "stack-buffer-overflow" in errtxt and "dump_chrome_task_rstack" in errtxt
+                    return oob == "0" and rc == 0 and not san and out == exp
+                match1 = matches("111")
+                # the pre-fix model the implementation agrees with: the one with the most repairs
+                pre = [fx for fx in sorted(combos[1:], key=lambda c: -c.count("1")) if mod[fx] != mod["111"] and matches(fx)]
+                match0 = bool(pre)
                 stats["chrome_match_fixed_model"] += match1
-                stats["chrome_match_prefix_model"] += match0
+                stats["chrome_match_prefix_model"] += match0 or (match1 and any(mod[fx] == mod["111"] for fx in combos[1:]))
+                if tr.has_args():
+                    stats["chrome_arg_runs"] += 1
+                    stats["chrome_arg_events"] += sum(1 for r in tr.visible() if tr.vals_of(r) is not None)
                 if len(samples) < 4 and i % 7 == 2:
                     samples.append({"trace": tr.desc, "chrome_impl_head": out[:200].decode("latin-1"), "model_head": exp1[:200].decode("latin-1")})
-                if not bad and (match1 or match0):
+                if len(samples) < 6 and tr.has_args() and "random" in tr.desc and rc == 0:
+                    ln = [l for l in out.split(b"\n") if b'"args":{"arg' in l][:1]
+                    if ln:
+                        samples.append({"trace": tr.desc, "chrome_impl_event": ln[0][:300].decode("latin-1")})
+                if not bad and match1:
                     continue
                 rep.update({"what": bad, "impl_output": out[:3000].decode("latin-1"), "model_fixed": exp1[:3000].decode("latin-1"),
-                            "model_prefix": exp0[:3000].decode("latin-1"), "model_prefix_oob": m0[0],
-                            "matches_prefix_model": match0, "matches_fixed_model": match1, "defect_shapes": sorted(shapes)})
-                if bad and match0 and shapes:
-                    # the implementation behaves exactly like the pre-fix model on an input with known defect shapes
-                    for fid in sorted(shapes):
+                            "matches_fixed_model": match1, "matches_prefix_models": pre, "defect_shapes": sorted(shapes),
+                            "model_oob": {fx: mod[fx][0] for fx in combos}})
+                if pre:
+                    # the implementation behaves exactly like the model without some repairs: name the repairs whose
+                    # absence matters for this input
+                    fx = pre[0]
+                    rep["model_prefix"] = mod[fx][1][:3000].decode("latin-1")
+                    rep["prefix_model"] = fx
+                    fids = []
+                    if fx[0] == "0" and mod.get("1" + fx[1:], mod["111"]) != mod[fx]:
+                        fids += sorted(shapes)
+                    if tr.has_args():
+                        for bit, fid in ((1, "C15-ARGBUF"), (2, "C15-ARGSYM")):
+                            on = fx[:bit] + "1" + fx[bit + 1:]
+                            if fx[bit] == "0" and mod[on] != mod[fx]:
+                                fids.append(fid)
+                    for fid in fids:
                         stats["defect_" + fid] += 1
                         r2 = dict(rep)
-                        r2.update({"kind": "property-violated-on-implementation", "finding": fid,
-                                   "theorem": {"F9": "c15_chrome_valid; c15_prefix_comm_quote_witness, c15_prefix_cmdline_backslash_witness",
-                                               "F9b": "c15_chrome_valid; c15_prefix_empty_trace_witness",
-                                               "S3": "c15_name_buf_safe; c15_prefix_name_buf_overflow_witness, c15_prefix_name_buf_cut_witness"}[fid]})
-                        report("%s-t%d" % (fid, i), r2, finding=fid)
-                elif bad:
+                        r2.update({"kind": "property-violated-on-implementation" if bad else "model-code-disagreement",
+                                   "finding": fid, "theorem": FINDING_THEOREMS[fid]})
+                        if not bad:
+                            r2["what"] = "output equals the model without repair %s and differs from the repaired model" % fid
+                        report("%s-t%d" % (fid, i), r2, nfi=not bad, finding=fid)
+                    if fids:
+                        continue
+                if bad:
                     rep["kind"] = "property-violated-on-implementation"
-                    rep["theorem"] = "c15_chrome_valid, c15_chrome_balanced"
+                    rep["theorem"] = "c15_chrome_valid_with_args, c15_chrome_no_overflow, c15_chrome_balanced"
                     report("chrome-t%d" % i, rep)
                 else:
                     rep["kind"] = "model-code-disagreement"
-                    rep["theorem"] = "c15_chrome_valid, c15_chrome_balanced (correspondence of Json.chromeOutput)"
+                    rep["theorem"] = "c15_chrome_valid_with_args, c15_chrome_balanced (correspondence of Json.chromeOutput)"
                     report("chrome-corr-t%d" % i, rep, True)
                 continue
             # the graph family
@@ -1030,6 +1537,10 @@ def run_cases(ctx, only):
                 "and mutated texts.  H3: corpus traces, names whose escaped length is 2041..2047 with each kind of final escape, "
                 "overflowing names, then random traces (1-4 tasks, threads and processes, recursion, open calls, shared names, "
                 "zero-length calls) x {chrome, flame without sampling, --sample-time N, auto sample time, graphviz, mermaid, graph}; "
+                "chrome with argument / return value payloads: corpus (the Lean witnesses of C15-ARGBUF / C15-ARGSYM), value lists whose "
+                "text has 1990..2062 bytes (one string with each kind of final escape, std::string, return values, mixed lists, "
+                "twelve strings), random traces with 1-4 argument functions (specs of 0-8 values from s S c p d/i/u/x/o 8-64 f e t, "
+                "pointers into hostile symbols), each compared with the model under all 8 combinations of the repairs; "
                 "distinct = distinct (mode, number of call paths, tasks, sampling, open calls) / (defect shapes, tasks) classes",
         "traces": len(traces),
         "runs_per_mode": {m: stats["run_" + m] for m in MODES},
@@ -1037,6 +1548,8 @@ def run_cases(ctx, only):
         "json_recogniser_probes": stats["json_probe"], "json_recogniser_probes_valid": stats["json_probe_valid"],
         "body_probes": stats["body_probe"],
         "chrome_runs_matching_fixed_model": stats["chrome_match_fixed_model"],
+        "chrome_runs_with_argument_payloads": stats["chrome_arg_runs"],
+        "chrome_events_with_argument_payloads": stats["chrome_arg_events"],
         "chrome_runs_matching_prefix_model": stats["chrome_match_prefix_model"],
         "graph_family_runs_matching_model": stats["graph_family_match"],
         "flame_runs_matching_fixed_model": stats["flame_match_fixed_model"],
@@ -1047,14 +1560,19 @@ def run_cases(ctx, only):
         "samples": samples,
         "input_distribution": "symbol names: 25% plain, 60% mixes of quotes/backslashes/control bytes/0x7f/bytes>=0x80/separators, "
                               "15% long (150-330 bytes); exename basenames and command lines from the same alphabet; "
-                              "times strictly increasing across tasks (zero increments inside a task)",
+                              "times strictly increasing across tasks (zero increments inside a task); string values: 6% NULL marker, "
+                              "6% empty, 8% plain, else 1-8 units from quotes/backslashes/control bytes/utf-8/0xff/format directives/"
+                              "escape look-alikes or random bytes, 8% with an embedded NUL; chars: 60% from {0,9,10,34,39,92,127,128,255,…}; "
+                              "pointers: 70% into a symbol (start, +1, last byte), 10% NULL, else gaps / outside the map",
     })
     ctx.assumptions += [
         "symbol names contain no NUL, newline or TAB (line format of .sym files) and do not start with '_' (no demangling)",
         "exename without whitespace or '/' in its basename (sid-*.map is parsed with sscanf %s)",
         "traces are well formed: per task a prefix of a balanced call sequence, EXIT records carry the address of their ENTRY",
         "isprint() is the C-locale one (LC_ALL=C); info has the CMDLINE bit (always written by uftrace record)",
-        "records carry no arguments (frs->more = 0): get_argspec_string is outside this check",
+        "functions whose records carry arguments have plain names (the info file's argspec selects them by name); the text "
+        "of the printf formats (integers, floats, %p, <ENUM?>, struct) is computed by the check and handed to the model as given "
+        "text, enum names and struct type names come from a fixed harmless set; --color=no",
         "the sampled flame count is specified as in the comment of adjust_fg_time: (time - sum over child calls of floor(dur/st)*st) / st",
     ]
     return C.finish(ctx)
